@@ -405,3 +405,102 @@ def run(prog: Program, res: Result) -> None:  # noqa: PLR0912, PLR0915
         else:
             res.ok("C12.R7", site, what, "default object truthiness")
     res.floor("C12.R7", "AST classes checked for truthiness overrides", n_truth, 50)
+
+    # ------------------------------------------------------------------ R8 printer completeness
+    res.rule("C12.R8", "every constructor-supplied field that an AST class's behaviour reads (in its own non-printing methods, or through a typed `<expr>.field` anywhere in liquid2) is also read by its __str__ (directly or through self.helper()): str() cannot drop an argument the renderer uses")
+    from sa.types import TypeApprox
+
+    T = TypeApprox(prog)
+    non_beh = {"__init__", "__str__", "__repr__", "__eq__", "__hash__", "__getstate__", "__setstate__", "__sizeof__", "__reduce__", "__getnewargs__"}
+    r8_exempt = {
+        ("CommentNode", "text"): "printed as str(self.token): the comment token spans the text",
+        ("LiquidNode", "block"): "printed as str(self.token): the LinesToken carries every line statement",
+        ("ContentNode", "left_trim"): "carried by the neighbouring markup's whitespace-control markers, which those nodes print (C12.R5)",
+        ("ContentNode", "right_trim"): "carried by the neighbouring markup's whitespace-control markers (C12.R5)",
+        ("TrueLiteral", "value"): "constant of the class: prints `true`",
+        ("FalseLiteral", "value"): "constant of the class: prints `false`",
+        ("_AnyExpression", "left"): "the case subject: printed once by CaseNode.__str__, not per `when`",
+    }
+    ext_reads: dict[str, dict[str, list[str]]] = {}
+    for f in prog.all_functions():
+        if f.name in non_beh:
+            continue
+        for n in ast.walk(f.node):
+            if isinstance(n, ast.Attribute) and isinstance(n.ctx, ast.Load) and not is_self_attr(n):
+                ci = T.class_of(f, T.of(f, n.value))
+                if ci is not None:
+                    for k in prog.mro(ci):
+                        ext_reads.setdefault(k.full, {}).setdefault(n.attr, []).append(f.qualname)
+    n_r8 = 0
+    used_exempt = set()
+    for c in sorted(set(prog.subclasses(node_base, strict=True)) | set(prog.subclasses(expr_base, strict=True)), key=lambda x: x.full):
+        sm = prog.find_method(c, "__str__")
+        if sm is None or sm.cls is None or sm.cls.full in ("liquid2.ast.Node", "liquid2.expression.Expression"):
+            continue
+        # fields stored from constructor parameters
+        fields: dict[str, int] = {}
+        for k in prog.mro(c):
+            init = k.methods.get("__init__")
+            if init is None:
+                continue
+            params = set(init.params())
+            for n in ast.walk(init.node):
+                if isinstance(n, ast.Assign):
+                    for t in n.targets:
+                        if is_self_attr(t) and t.attr not in fields and any(isinstance(x, ast.Name) and x.id in params for x in ast.walk(n.value)) and not any(is_self_attr(x) for x in ast.walk(n.value)):
+                            fields[t.attr] = n.lineno
+        if not fields:
+            continue
+        printed: set[str] = set()
+        work, seen = [sm], set()
+        while work:
+            g = work.pop()
+            if g.fid in seen:
+                continue
+            seen.add(g.fid)
+            for n in ast.walk(g.node):
+                if is_self_attr(n):
+                    printed.add(n.attr)
+                if isinstance(n, ast.Call) and isinstance(n.func, ast.Attribute) and isinstance(n.func.value, ast.Name) and n.func.value.id == "self":
+                    h = prog.find_method(c, n.func.attr)
+                    if h is not None:
+                        work.append(h)
+        beh: dict[str, list[str]] = {}
+        for k in prog.mro(c):
+            for m_ in k.methods.values():
+                if m_.name in non_beh or m_.name == "parse":
+                    continue
+                for n in ast.walk(m_.node):
+                    if is_self_attr(n) and isinstance(n.ctx, ast.Load):
+                        beh.setdefault(n.attr, []).append(m_.qualname)
+        for a, sites in ext_reads.get(c.full, {}).items():
+            beh.setdefault(a, []).extend(sites)
+        for fld, line in sorted(fields.items()):
+            if fld in ("token", "blank") or fld not in beh:
+                continue
+            n_r8 += 1
+            site = f"{c.file}:{line} {c.name}"
+            what = f"{c.name}.__str__ prints `{fld}` (read by {sorted(set(beh[fld]))[0]})"
+            if fld in printed:
+                res.ok("C12.R8", site, what, "read by the printer")
+            elif (c.name, fld) in r8_exempt:
+                used_exempt.add((c.name, fld))
+                res.ok("C12.R8", site, what, "exempt: " + r8_exempt[(c.name, fld)])
+            else:
+                res.fail("C12.R8", file=c.file, line=sm.node.lineno, qualname=f"{c.name}.__str__", construct=f"{c.name}.__str__ omits {fld}", message=f"{c.name}.{fld} is set by the constructor and read by {sorted(set(beh[fld]))[:3]} but {c.name}.__str__ never reads it: str(template) drops it and the reparsed template behaves differently", what=what)
+    res.floor("C12.R8", "behaviour-relevant constructor fields", n_r8, 90)
+    res.stats["C12.R8.unused_exemptions"] = sorted(f"{a}.{b}" for a, b in set(r8_exempt) - used_exempt)
+
+    # ------------------------------------------------------------------ R9 behaviour does not depend on token kinds
+    res.rule("C12.R9", "no method of a Node/Expression class other than its static parse / __str__ / __init__ inspects a token's kind (is_token_type, .type_): str() prints values, not token kinds (`offset: continue` prints as a quoted string), so behaviour keyed on the kind is lost by a round trip")
+    n_r9 = 0
+    for c in sorted(set(prog.subclasses(node_base)) | set(prog.subclasses(expr_base)), key=lambda x: x.full):
+        for m_ in c.methods.values():
+            if m_.name in ("parse", "__str__", "__init__") or any(d in ("staticmethod", "classmethod") for d in m_.decorators()):
+                continue
+            n_r9 += 1
+            hits = [n for n in ast.walk(m_.node) if (isinstance(n, ast.Attribute) and n.attr == "type_") or (isinstance(n, ast.Call) and isinstance(n.func, ast.Name) and n.func.id == "is_token_type")]
+            for h in hits:
+                res.fail("C12.R9", file=c.file, line=h.lineno, qualname=m_.qualname, construct=f"{m_.qualname} inspects `{norm(h, 50)}`", message=f"{m_.qualname} decides behaviour from a token kind (`{norm(h, 50)}`): the printer emits the value only, so after str() and reparse the kind - and the behaviour - can differ", what=f"{m_.qualname} does not inspect token kinds")
+    res.floor("C12.R9", "render/evaluate-side methods scanned for token-kind tests", n_r9, 200)
+    res.ok("C12.R9", "liquid2 AST classes", f"{n_r9} methods", "none inspects a token kind")
